@@ -4,8 +4,12 @@ TRUSTED_BASE_COMMON = [
     "Coq 8.16.1 kernel and coqc (full .vo build through coq_makefile/make; no -vos/-vok); vm_compute is used "
     "for finite-domain checker lemmas and for evaluating the model on harness cases; no native_compute",
     "no Axiom/Parameter/Conjecture/Admitted/admit anywhere in coq/ (grep gate in bin/check fails the check otherwise)",
-    "translator tools/dt2coq (Go, go/parser): regenerates GenStatus/GenEvent/GenMsgType/GenFsm from /repo on every run; "
-    "cross-checked behaviourally by the exhaustive fsmtable differential against the running channels.Channels",
+    "translator tools/dt2coq (Go, go/parser): regenerates GenStatus/GenEvent/GenMsgType/GenFsm (and GenMigrate, GenSchema, GenPred, "
+    "GenTimeCounter) from /repo on every run, cross-checked behaviourally by the exhaustive fsmtable differential against the running "
+    "channels.Channels; GenDecide.v holds the small decision functions translated statement by statement (LeaveRequestPaused, "
+    "requestError, the pause / party / counter accessors of channel_state.go, the cache-seeding readers and the wiring of the block "
+    "reports in channels.go), each proved equal to the hand-written model's definition in proofs/DecideEq.v; the translator refuses "
+    "any statement or expression outside its subset",
     "correspondence harness /verif/harness (Go, built from /repo's working tree with -tags verif): doubles, printers of "
     "cases_*.v, canonicalisation; correspondence is differential testing, exhaustive only where stated",
     "go-statemachine / go-statestore / go-ds-versioning are modelled (coq/model/Machine.v), not verified",
@@ -44,7 +48,7 @@ PROPS = {
         "Machine-checked proof about the handler programs of Node.v for every state, message and oracle answer; Node.v is tied to impl/*.go by the node correspondence (exhaustive validator-outcome grid x request kind x path, UpdateValidationStatus in 9 situations) which also runs every call under recover.",
         "The handlers are modelled by hand (correspondence = differential testing, exhaustive over the stated grid); restart / revalidation paths are covered by correspondence and monitors, the theorems are about new requests; 'does not crash' = no call panicked in any suite (two panics were found and fixed, see KNOWN_FINDINGS.txt)",
         corr=NODE_CORR),
-    "C05": P("props/C05.v", ["nodepeers", "noderestart", "nodeflow", "transport"],
+    "C05": P("props/C05.v", ["nodepeers", "noderestart", "nodeflow", "transport", "nodemonitor"],
         "Coq theorem: a step whose input names channel k (built from the authenticated sender) leaves every other channel's record and caches unchanged, for every handler program (key discipline enforced by the interpreter run_keyed and proved generically); exhaustive sender x message kind x id product and restart-request mutations on the real manager",
         "Machine-checked frame theorem for every input, sender and oracle answer; strangers and role-confused senders cannot name an existing channel (key built from the authenticated peer). The honour conditions of restart requests are enumerated (every single-field mutation) against the real code with direct monitors.",
         "Authenticated remote peer is libp2p's / graphsync's contract (assumed); the key discipline is part of the model's step function and is therefore itself validated by the correspondence (a handler that touched another key would disagree with the model)",
@@ -95,11 +99,11 @@ PROPS = {
         "Machine-checked proof at machine level (announcements) and over every history of subscription changes and notifications of the fan-out model Subs.v (per-transfer subscribers keyed by the full channel id and dropped at termination, global subscribers exactly once per event inside their window, none after unsubscribe); Subs.v is tied to impl.SubscribeToEvents / channelsubscriptions.go by the subs suite (call log of every subscriber incl. channels with colliding transfer ids).",
         GO_SM + "; the notifier FIFO goroutine of go-statemachine is assumed to preserve order (validated); subscription changes are made at quiescent points (a subscribe racing with a Publish is not exercised; go-pubsub's RWMutex is assumed); the order in which different subscribers are called for one event is not modelled",
         corr=NODE_CORR + ["corr/SubsCorr.v"]),
-    "C19": P("props/C19.v", ["fsmtable", "fsmhist", "nodeapi", "nodevalidate", "migrate"],
+    "C19": P("props/C19.v", ["fsmtable", "fsmhist", "nodeapi", "nodevalidate", "migrate", "net"],
         "Coq theorems: accessor views of well-formed records agree (pull, channel id, other peer), well-formedness preserved by every event, voucher logs append-only with exactly the NewVoucher/NewVoucherResult entries, 'last' accessors; every state the harness sees goes through all real accessors under recover",
         "Machine-checked proof at FSM level plus a totality monitor on the implementation: every accessor of every observed state is called under recover and compared with the model view.",
         "node-level recording rules (voucher recorded only after a successful send, etc.) are in Node.v, tied by nodeapi with direct monitors",
-        corr=NODE_CORR + ["corr/MigrateCorr.v"]),
+        corr=NODE_CORR + ["corr/MigrateCorr.v", "corr/NetCorr.v"]),
     "C14": P("props/C14.v", ["monitor", "nodemonitor"],
         "Coq theorems over every schedule of a small-step model of channelmonitor.go (events, debounced call, restart loop positions, ConnectTo/Restart results, timers, spawned Shutdown as labels): one call in flight, queued restart performed once, attempts since the last data event bounded by the limit, close at most once, timers close iff they fire armed on a live monitor, shutdown after an ending event silences everything; the real monitor over a gated recording monitorAPI double is compared after every macro step, with direct monitors (overlap, double close, bound, lost queued restart, timers)",
         "Machine-checked proof over all schedules of the hand-written model; the model is tied to channelmonitor.go by enumerated failure patterns, queued-restart placements, data-reset rounds, real-timer cases and generated schedules, each macro step proved to be a schedule of the model.",
@@ -125,11 +129,11 @@ PROPS = {
         "Machine-checked proof for every message and every IPLD payload (64-bit ranges); the model's bytes equal the implementation's on every generated message, so the theorems are about the format actually written.",
         "go-ipld-prime's dagcbor / bindnode are modelled (Cbor.v, Wire.v), not verified: the tie is the byte-for-byte comparison; 'decoding arbitrary bytes never panics / never yields a missing body' is a theorem only for the model's decoder, for the real decoders it is a test (a stream of random and mutated inputs under recover) - partial; floats are opaque 64-bit patterns; strings are byte strings (no UTF-8 validation, as the code ships peer ids in text strings)",
         corr=["corr/WireCorr.v", "corr/NetCorr.v"]),
-    "C20": dict(P("props/C20.v", ["gsnode", {"name": "stress", "race": True}, {"name": "e2erace", "race": True}],
+    "C20": dict(P("props/C20.v", ["gsnode", "transport", {"name": "stress", "race": True}, {"name": "e2erace", "race": True}],
         "lock-order part: a lock graph (mutexes, and every holder/callee/taker way one is acquired while another is held) is EXTRACTED on every run from the SSA form and VTA call graph of /repo by tools/lockgraph; Coq theorems: the extracted relation minus one committed, explained infeasible path admits a strictly increasing rank (acyclic, no lock re-acquired), and a rank excludes any cycle of threads each waiting for a lock the next holds; runtime part (tests, not proofs): every graphsync callback with every message kind returns (gsnode, exhaustive product, watchdog), race-instrumented stress of the manager API and of the real Transport under concurrent callbacks with re-entrant subscribers, Stop while active, no goroutine left blocked on a library lock",
         "Machine-checked acyclicity of the extracted lock order and a machine-checked no-deadlock theorem for any threads that respect it; data-race freedom and completion of every call are exercised under the race detector and watchdogs, which sample the scheduler's interleavings.",
         "level 'other': the theorem covers lock-order deadlocks among library mutexes only, under the soundness of the static extraction (calls through function values such as TransportOption closures and user subscribers are not resolved; all instances of a mutex type are merged; one path is excluded as infeasible with a written justification, see coq/model/Locks.v); data races, channel / goroutine waits and re-entrant subscriber calls are covered only by the race-instrumented stress suite and watchdogs (a test); the Go memory model and sync primitives are assumed",
-        corr=[], level="other"), lockgraph=True),
+        corr=["corr/TransportCorr.v"], level="other"), lockgraph=True),
     "C01": P("props/C01.v", ["e2e", "e2erestart", "nodeflow", "nodevalidate", "noderestart", "crash", "gsnode", "fsmrace"],
         "control part, machine-checked over every history of the node model: a per-handler analysis (every handler, every input: which completion events it may raise on a channel, proved by symbolic execution of the handler programs) lifted through the go-statemachine model to a history invariant -- an initiator's channel is Completing / Completed only if its history contains the authenticated responder's final un-paused Complete and a successful completion of its own transport (or the transport completed while still awaiting acceptance); a responder puts a final Complete on the wire only from a local completion input; composed over an authentic network. Data part (a test): two real managers over real graphsync and the real libp2p data-transfer network on a mock network, payload shapes / limits raised in rounds / finalization / forced pause / pauses / per-channel stores, checking responder Completed, byte-identical payload at the receiver, Received = Queued = Sent = unique size",
         "Machine-checked proof of the control clause over all histories and oracle answers of the hand-written node model (tied to impl/*.go by the node suites); the data clause is checked on real nodes by the e2e suite.",
